@@ -1,5 +1,6 @@
 //! pvx - model-checking harness for sine-fdn/polytune.  One subcommand per property.
 
+mod adv;
 mod alloc;
 mod checks;
 mod circuits;
@@ -9,6 +10,7 @@ mod monitors;
 mod hooks;
 mod mpcrun;
 mod schema;
+mod shard;
 mod util;
 
 #[global_allocator]
